@@ -412,7 +412,7 @@ pub fn gen_name(r: &mut Prng, style: u8, text_safe: bool, longish: bool) -> Stri
 
 fn pick_ids(r: &mut Prng, n: usize, space: u8, with_std: bool) -> Vec<u32> {
     let mut set: BTreeSet<u32> = BTreeSet::new();
-    let forced: [u32; 6] = [9_999_999, 2, 117, 119, 9_999_998, 5];
+    let forced: [u32; 12] = [9_999_999, 2, 117, 119, 9_999_998, 5, 255, 256, 65_535, 65_536, 8_388_608, 9_437_184];
     match space {
         0 => {
             let hi = (n as u32) * 2 + 130;
@@ -725,7 +725,14 @@ pub fn gen_facts(r: &mut Prng, cfg: &GenCfg) -> FactSet {
         let mut idset: BTreeSet<u32> = BTreeSet::new();
         while idset.len() < nrec {
             // deliberately overlapping numeric ids across kinds
-            let v = if r.chance(3, 4) { r.range(1, 20) as u32 } else { r.range(1, 4_000_000_000) as u32 };
+            let v = if r.chance(3, 4) {
+                r.range(1, 20) as u32
+            } else if r.chance(1, 5) {
+                // borders of the byte / word sizes a record id passes through
+                *r.pick(&[0u32, 255, 256, 65_535, 65_536, 16_777_215, 16_777_216, 0x7FFF_FFFF, 0x8000_0000, 0xFF00_00FF, u32::MAX - 1, u32::MAX])
+            } else {
+                r.range(1, 4_000_000_000) as u32
+            };
             idset.insert(v);
         }
         let mut out = vec![];
@@ -752,6 +759,14 @@ pub fn gen_facts(r: &mut Prng, cfg: &GenCfg) -> FactSet {
                     if cfg.names >= 3 && r.chance(1, 8) {
                         while s.len() < 300 {
                             s.push_str(" long");
+                        }
+                    }
+                    if cfg.names >= 3 && r.chance(1, 60) {
+                        // a disease name beyond 65 535 bytes (its length field has four bytes)
+                        let unit = " a very long disease name indeed";
+                        s.reserve(70_000);
+                        while s.len() < 66_000 {
+                            s.push_str(unit);
                         }
                     }
                     s
